@@ -1029,12 +1029,18 @@ class ChannelFactory:
             if remoteerror:
                 channel._remoteerrors.append(remoteerror)
             queue = channel._items
-            if queue is not None:
-                queue.put(ENDMARKER)
-            self._no_longer_opened(id)
+            if queue is None:
+                # callback receiver: the endmarker callback runs before
+                # waitclose() can return
+                self._no_longer_opened(id)
             if not sendonly:  # otherwise #--> "sendonly"
                 channel._closed = True  # --> "closed"
             channel._receiveclosed.set()
+            if queue is not None:
+                # enqueue ENDMARKER only after the state is settled, so that
+                # a receiver seeing EOFError finds the channel closed
+                queue.put(ENDMARKER)
+                self._no_longer_opened(id)
 
     def _local_receive(self, id: int, data) -> None:
         # executes in receiver thread
